@@ -505,6 +505,7 @@ QXV_DRIVER(server)
     const auto behs = ctx.behaviours();
     const bool useFork = ctx.optInt("fork", 1) != 0;
     const int batch = ctx.optInt("batch", 100);
+    const int base = ctx.optInt("base", 0);   // case ids are s<base+1>, s<base+2>, ... (parallel slices)
     struct Shared {
         int cur;       // index of the behaviour being executed
         int hung;
@@ -519,7 +520,7 @@ QXV_DRIVER(server)
     auto runRange = [&](int from, int to) {
         for (int i = from; i < to; i++) {
             sh->cur = i;
-            if (!runBehaviour(ctx, QStringLiteral("s%1").arg(i + 1), behs[i].toObject()["steps"].toArray())) {
+            if (!runBehaviour(ctx, QStringLiteral("s%1").arg(base + i + 1), behs[i].toObject()["steps"].toArray())) {
                 ++sh->hung;
             }
             ctx.out.flush();
@@ -554,7 +555,7 @@ QXV_DRIVER(server)
         }
         ++crashed;
         ctx.out.seek(ctx.out.size());
-        ctx.emit_(QJsonObject { { "e", "Crash" }, { "case", QStringLiteral("s%1").arg(sh->cur + 1) },
+        ctx.emit_(QJsonObject { { "e", "Crash" }, { "case", QStringLiteral("s%1").arg(base + sh->cur + 1) },
                                 { "how", WIFSIGNALED(st) ? QStringLiteral("signal %1").arg(WTERMSIG(st)) : QStringLiteral("exit %1").arg(WEXITSTATUS(st)) } });
         next = sh->cur + 1;
     }
